@@ -56,6 +56,27 @@ stages:
   mode: users
 `
 
+// a constant stage with three users stages still ahead of it
+const fileUsersAheadYAML = `scenario: s
+limits:
+  max-duration: %s
+  concurrency: %d
+  max-iterations: %d
+  ignore-dropped: true
+stages:
+- duration: 300ms
+  mode: constant
+  rate: 1/100ms
+  jitter: 0
+  distribution: none
+- duration: 100ms
+  mode: users
+- duration: 100ms
+  mode: users
+- duration: 100ms
+  mode: users
+`
+
 const fileUsersFirstYAML = `scenario: s
 limits:
   max-duration: %s
@@ -93,6 +114,9 @@ func (c cfg) spec() *hlib.RunSpec {
 		rs.Flags = map[string]string{"volume": "60000", "repeat": "1m", "iteration-frequency": "100ms", "peak": "0s", "standard-deviation": "1h", "distribution": "none"}
 	case "file":
 		rs.FileYAML = fmt.Sprintf(fileYAML, c.maxDur, c.conc, c.limit)
+	case "file-users-ahead":
+		rs.Mode = "file"
+		rs.FileYAML = fmt.Sprintf(fileUsersAheadYAML, c.maxDur, c.conc, c.limit)
 	case "file-users-first":
 		rs.Mode = "file"
 		rs.FileYAML = fmt.Sprintf(fileUsersFirstYAML, c.maxDur, c.conc, c.limit)
@@ -194,7 +218,7 @@ func oracle(c cfg, o *vrt.Outcome) {
 	returned := false
 	timeoutFired := false
 	stopSeen := false
-	beginsAfterStop := 0
+	beginsAfterStop, beginsAfterCancel := 0, 0
 	var retClock int64
 	nbegin := 0
 	var stopClock int64 = -1
@@ -215,6 +239,9 @@ func oracle(c cfg, o *vrt.Outcome) {
 			}
 			if stopSeen {
 				beginsAfterStop++
+			}
+			if c.cancelAt >= 0 && o.LogClock[li] > int64(c.cancelAt) {
+				beginsAfterCancel++
 			}
 			open[f[1]] = true
 		case f[0] == "end":
@@ -269,6 +296,9 @@ func oracle(c cfg, o *vrt.Outcome) {
 	if (c.pre || c.maxDur <= 10*time.Millisecond) && c.mode != "users" && !strings.HasPrefix(c.mode, "file") && nbegin > 0 {
 		o.Fail("C05/starts-after-stop", "empty-window", fmt.Sprintf("%d iterations started although the triggering window was over before it began", nbegin))
 	}
+	if o.Cost == 0 && beginsAfterCancel > c.conc {
+		o.Fail("C05/starts-after-stop", "after-the-interrupt", fmt.Sprintf("%d iterations started later than the instant of the caller's cancel (concurrency %d)", beginsAfterCancel, c.conc))
+	}
 	if o.Cost == 0 && beginsAfterStop > c.conc {
 		o.Fail("C05/starts-after-stop", "more-than-workers", fmt.Sprintf("%d iterations started after the run announced it had stopped triggering (concurrency %d)", beginsAfterStop, c.conc))
 	}
@@ -303,7 +333,7 @@ func oracle(c cfg, o *vrt.Outcome) {
 			if d := 300*time.Millisecond - 10*time.Millisecond; d < stop {
 				stop = d
 			}
-		case "file", "file-users-first":
+		case "file", "file-users-first", "file-users-ahead":
 			if d := 600*time.Millisecond - 10*time.Millisecond; d < stop {
 				stop = d
 			}
@@ -385,6 +415,9 @@ func scenariosFor(tier string) []vrt.Scenario {
 	// the limit is reached while iterations that never finish are in flight: the completion timeout still bounds the wait
 	add(b-1, cfg{mode: "constant", maxDur: ms(2000), limit: 3, cancelAt: never, body: "first-forever", conc: 2})
 	add(b-1, cfg{mode: "users", maxDur: ms(2000), limit: 3, cancelAt: never, body: "first-forever", conc: 2})
+	// config-file mode interrupted in its first stage: the stages still ahead (users stages, whose workers would
+	// each start an iteration before noticing) are not entered
+	add(b, cfg{mode: "file-users-ahead", maxDur: ms(2000), cancelAt: ms(150), body: "sleep30"})
 	// the triggering window is over before it begins
 	add(b, cfg{mode: "constant", maxDur: ms(10), cancelAt: never, body: "sleep30", conc: 2})
 	add(b, cfg{mode: "constant", maxDur: ms(5), cancelAt: never, body: "instant"})
